@@ -15,7 +15,8 @@ BIN = os.path.join(WORK, "bin")
 
 # Coq sub-projects in build order: (directory, logical name)
 PROJECTS = [("Lib", "BWLib"), ("Grammar", "BWGrammar"), ("Values", "BWValues"), ("Store", "BWStore"),
-            ("Lexer", "BWLexer"), ("Table", "BWTable"), ("Planner", "BWPlanner"), ("Conc", "BWConc")]
+            ("Lexer", "BWLexer"), ("Table", "BWTable"), ("Planner", "BWPlanner"), ("Memo", "BWMemo"),
+            ("Exec", "BWExec"), ("Conc", "BWConc"), ("Engine", "BWEngine")]
 
 ALLOWED_AXIOMS = {
     "functional_extensionality_dep", "proof_irrelevance", "JMeq_eq", "Eqdep.Eq_rect_eq.eq_rect_eq",
